@@ -455,7 +455,9 @@ class RenderContext:
             ctx = self.__class__(
                 template or self.template,
                 globals=ReadOnlyChainMap(namespace, self.scope),
-                disabled_tags=disabled_tags,
+                # A block keeps the restrictions of the context it is rendered in: a
+                # partial that can't use "include" can't use it from a block either.
+                disabled_tags=disabled_tags or self.disabled_tags,
                 copy_depth=self._copy_depth + 1,
                 parent_context=self,
                 loop_iteration_carry=loop_iteration_carry,
